@@ -112,10 +112,19 @@ func solveAll(obs []*Obligation, dir string, timeoutS int, keep bool) {
 					}
 				}
 			} else {
-				qf, full := q.Instantiated()
+				qf, full := q.Instantiated(false)
 				done := false
-				if qf != nil {
-					f := writeQuery(dir, o.Name+".inst", qf.Script(nil))
+				for round := 0; round < 2 && !done && qf != nil; round++ {
+					suffix := ".inst"
+					if round == 1 {
+						// second attempt: also instantiate at sub-terms of index expressions
+						qf, _ = q.Instantiated(true)
+						suffix = ".inst2"
+						if qf == nil {
+							break
+						}
+					}
+					f := writeQuery(dir, o.Name+suffix, qf.Script(nil))
 					ct := timeoutS
 					if ct > 20 {
 						ct = 20
@@ -125,9 +134,9 @@ func solveAll(obs []*Obligation, dir string, timeoutS int, keep bool) {
 						r.Solver += "+inst"
 						o.Res = r
 						done = true
-						if !keep {
-							os.Remove(f)
-						}
+					}
+					if !keep {
+						os.Remove(f)
 					}
 				}
 				if !done {
